@@ -132,6 +132,9 @@ def run_C16(ctx):
 
         def gen1(t):
             gname, vn, cmd = t
+            # the regenerate-in-place cycle: the output path already holds an older, longer generated file
+            with open(cmd[-1], 'w') as f:
+                f.write('// Code generated by an earlier run.\n' + '/* older text */ }\n' * 40000)
             try:
                 r = subprocess.run(cmd, capture_output=True, text=True, timeout=30)
                 return gname, vn, r.returncode, (r.stderr + r.stdout)[-500:]
@@ -270,7 +273,8 @@ def run_C17(ctx):
                     problem = 'line %d prints a reduction in state %d on %r, the table says %s' % (i + 1, stack[-1], name_of.get(a), vlib.decode_cell(cell, err, acc))
                 else:
                     rl = rules[-cell]
-                    want = 'use Reduce:%s -> %s' % (remove_temp(rl['vlhs']), ''.join(remove_temp(x) + ' ' for x in (rl['vrhs'] or [])))
+                    # the text of the production the table cell names (symbols of the grammar the tables were built from)
+                    want = 'use Reduce:%s -> %s' % (name_of.get(rl['lhs'], '?'), ''.join(name_of.get(x, '?') + ' ' for x in (rl['rhs'] or [])))
                     if r.group(1) != name_of.get(a, '?'):
                         problem = 'line %d prints lookahead %r, the reduction was triggered by %r' % (i + 1, r.group(1), name_of.get(a))
                     elif 'use Reduce:' + r.group(2) != want:
